@@ -131,8 +131,8 @@ func runC02(c *an.Ctx) {
 		entryOK, backOK := false, false
 		for i, e := range rolling.Edges {
 			pred := header.Preds[i]
-			if ff.Dominates(header, pred) { // back edge
-				backOK = e == elem
+			if ff.Dominates(header, pred) { // back edge (possibly a merge of several ways through the body, all carrying the element)
+				backOK = samePhi(e) == elem
 			} else {
 				entryOK = t.Of(e) == "p0"
 			}
@@ -145,6 +145,8 @@ func runC02(c *an.Ctx) {
 	rollH := "Height(" + t.Of(rolling) + ")"
 	adj := an.EQ("("+rollH+"+1)", "Height("+t.Of(elem)+")")
 	posI := an.LT("0", kTerm)
+	posI2 := an.NE(kTerm, "0") // the same for an index that enumerates 0,1,2,…
+	isPos := func(fs an.FactSet) bool { return fs.Has(posI) || fs.Has(posI2) }
 
 	// verified phi
 	var verified *ssa.Phi
@@ -161,18 +163,35 @@ func runC02(c *an.Ctx) {
 
 	// --- C02.e prefix construction
 	okInit, okBack := false, false
-	var appendCall *ssa.Call
+	var appendCalls []*ssa.Call
+	// the value carried back may merge several ways through the body: each must be append(verified, elem)
+	var backVals func(v ssa.Value, depth int) []ssa.Value
+	backVals = func(v ssa.Value, depth int) []ssa.Value {
+		if ph, ok := v.(*ssa.Phi); ok && ph.Block() != header && depth < 3 {
+			var out []ssa.Value
+			for _, e := range ph.Edges {
+				out = append(out, backVals(e, depth+1)...)
+			}
+			return out
+		}
+		return []ssa.Value{v}
+	}
 	for i, e := range verified.Edges {
 		pred := header.Preds[i]
 		if ff.Dominates(header, pred) {
-			if call, ok := e.(*ssa.Call); ok {
-				if b, ok := call.Call.Value.(*ssa.Builtin); ok && b.Name() == "append" && call.Call.Args[0] == ssa.Value(verified) {
-					args := an.VariadicArgs(call.Call.Args[1])
-					if len(args) == 1 && args[0] == elem {
-						okBack = true
-						appendCall = call
+			okBack = true
+			for _, bv := range backVals(e, 0) {
+				okThis := false
+				if call, ok := bv.(*ssa.Call); ok {
+					if b, ok := call.Call.Value.(*ssa.Builtin); ok && b.Name() == "append" && call.Call.Args[0] == ssa.Value(verified) {
+						args := an.VariadicArgs(call.Call.Args[1])
+						if len(args) == 1 && args[0] == elem {
+							okThis = true
+							appendCalls = append(appendCalls, call)
+						}
 					}
 				}
+				okBack = okBack && okThis
 			}
 		} else if ms, ok := e.(*ssa.MakeSlice); ok {
 			if cst, ok := ms.Len.(*ssa.Const); ok && cst.Value != nil && cst.Value.ExactString() == "0" {
@@ -182,11 +201,11 @@ func runC02(c *an.Ctx) {
 	}
 	c.Check(okInit, "C02.e", "fresh-empty", "`verified` starts as a fresh slice of length 0", fn, verified, "", nil)
 	c.Check(okBack, "C02.e", "append-elem", "`verified` is extended only by append(verified, elem) with the element just checked", fn, verified, "", nil)
-	if appendCall != nil {
+	for _, appendCall := range appendCalls {
 		fs := ff.AtInstr(appendCall)
 		c.Check(fs.Has(an.EQ(verr, "nil")), "C02.e", "append-after-verify", "an element is appended only after Verify returned nil for it", fn, appendCall, "", fs)
 		// under i>0 ∧ non-adjacent the append is unreachable
-		pr2 := ff.Prune(posI, adj.Neg())
+		pr2 := ff.Prune(posI, posI2, adj.Neg())
 		c.Check(!pr2.Reachable(appendCall.Block()), "C02.d", "append-needs-adjacency", "a non-adjacent element at position i>0 is never appended", fn, appendCall,
 			"reachability of the append under "+posI.String()+" ∧ "+adj.Neg().String(), nil)
 		// and under a failed Verify
@@ -214,14 +233,14 @@ func runC02(c *an.Ctx) {
 				"a Verify error returns the verified prefix and that error unchanged", fn, r, "returns "+res0+", "+sh, fs)
 		case sh == "&header.VerifyError{Reason:wrap(S:header.ErrNonAdjacentRange)}" || sh == "&header.VerifyError{Reason:S:header.ErrNonAdjacentRange}":
 			nNonAdj++
-			allowed := map[an.Fact]bool{emptyF.Neg(): true, inLoop: true, an.EQ(verr, "nil"): true, posI: true, adj.Neg(): true}
+			allowed := map[an.Fact]bool{emptyF.Neg(): true, inLoop: true, an.EQ(verr, "nil"): true, posI: true, posI2: true, adj.Neg(): true}
 			extra := ""
 			for _, f := range fs {
 				if !allowed[f] {
 					extra += " " + f.String()
 				}
 			}
-			c.Check(fs.Has(posI) && fs.Has(adj.Neg()) && fs.Has(an.EQ(verr, "nil")) && extra == "" && res0 == vTerm, "C02.d", "non-adjacent-return",
+			c.Check(isPos(fs) && fs.Has(adj.Neg()) && fs.Has(an.EQ(verr, "nil")) && extra == "" && res0 == vTerm, "C02.d", "non-adjacent-return",
 				"the ErrNonAdjacentRange rejection is reached exactly under verifyErr==nil ∧ i>0 ∧ elem.Height()≠rolling.Height()+1 and returns the verified prefix", fn, r,
 				"extra conjuncts:"+extra+"; returns "+res0, fs)
 		default:
@@ -232,10 +251,10 @@ func runC02(c *an.Ctx) {
 	c.Min("C02.d", "returns rejecting non-adjacency", nNonAdj, 1)
 	c.Min("C02.f", "nil-error returns", nNil, 1)
 	// for i == 0 the non-adjacency rejection must be unreachable (first element may be non-adjacent)
-	pr4 := ff.Prune(posI.Neg())
+	pr4 := ff.Prune(posI.Neg(), posI2.Neg())
 	for _, r := range pr4.Returns() {
 		sh := t.ErrShape(errResult(r))
-		if sh == "&header.VerifyError{Reason:wrap(S:header.ErrNonAdjacentRange)}" {
+		if sh == "&header.VerifyError{Reason:wrap(S:header.ErrNonAdjacentRange)}" || sh == "&header.VerifyError{Reason:S:header.ErrNonAdjacentRange}" {
 			c.Fail("C02.d", "first-element-exempt", "the first element may be non-adjacent to the trusted header", fn, r, "non-adjacency rejection reachable for i==0", nil)
 		}
 	}
